@@ -13,7 +13,7 @@ import (
 	"verif/harness/internal/stats"
 )
 
-const ruleChanSeq = "rapid: ONE ChannelSink (buffer of one event, timeout 60 ms) used for a history of 3-6 calls drawn from: Process with a long-lived context, Process with a context that expires after 15 ms, Process with an already cancelled context, and taking one event off the channel; oracle per call, given whether the channel had room: with room the event is handed over (nil error, received exactly once); without room an error is returned, not before min(timeout, context) minus 2 ms and not later than it plus 2 s, and the event is never received - whatever the earlier calls of the history were (a timeout, an expired context, a hand-over); non-trivial = a blocked call follows a call that ended differently; distinct = history"
+const ruleChanSeq = "rapid: ONE ChannelSink (buffer of one event, timeout 60 ms) used for a history of 3-6 calls drawn from: Process with a long-lived context, Process with a context that expires after 15 ms, Process with an already cancelled context, and taking one event off the channel; oracle per call, given whether the channel had room: with room the event is handed over (nil error, received exactly once); without room an error is returned, and when Process returns it either its context is done or at least timeout minus 2 ms have passed since the call began, and it returns no later than min(timeout, context) plus 3 s, and the event is never received - whatever the earlier calls of the history were (a timeout, an expired context, a hand-over); non-trivial = a blocked call follows a call that ended differently; distinct = history"
 
 // TestC13ChannelSinkSequences: the timeout / context clause holds for every call of a sink's life, not only the first.
 func TestC13ChannelSinkSequences(t *testing.T) {
@@ -52,16 +52,24 @@ func TestC13ChannelSinkSequences(t *testing.T) {
 			ev := &eventlogger.Event{Type: "t", Payload: i}
 			room := inChan == 0
 			start := time.Now()
-			done := make(chan error, 1)
-			go func() { _, e := sink.Process(ctx, ev); done <- e }()
-			var perr error
+			type res struct {
+				err    error
+				ctxErr error
+				el     time.Duration
+			}
+			done := make(chan res, 1)
+			// the context's state and the elapsed time are taken the moment Process returns: the
+			// 15 ms context started before `start` was read, so elapsed time alone cannot tell
+			// whether it was done (seen under load: "gave up after 12.1ms", context really expired)
+			go func() { _, e := sink.Process(ctx, ev); done <- res{e, ctx.Err(), time.Since(start)} }()
+			var r res
 			select {
-			case perr = <-done:
+			case r = <-done:
 			case <-time.After(limit + 3*time.Second):
 				cancel()
 				t.Fatalf("VIOLATION C13: call %d (%s) had not returned %s after min(timeout, context) = %s had passed (channel full: %v)\nhistory: %s", i, op, 3*time.Second, limit, !room, d)
 			}
-			el := time.Since(start)
+			perr, el := r.err, r.el
 			cancel()
 			end := "error"
 			if perr == nil {
@@ -81,7 +89,7 @@ func TestC13ChannelSinkSequences(t *testing.T) {
 				if perr == nil {
 					t.Fatalf("VIOLATION C13: call %d (%s): the channel was full and nobody received, yet Process reported success\nhistory: %s", i, op, d)
 				}
-				if el < limit-2*time.Millisecond {
+				if r.ctxErr == nil && el < timeout-2*time.Millisecond {
 					t.Fatalf("VIOLATION C13: call %d (%s): Process gave up after %s with %q although neither its timeout (%s) had elapsed nor its context was done (min = %s); the previous call ended with %q\nhistory: %s", i, op, el, perr, timeout, limit, lastEnd, d)
 				}
 				if lastEnd != "" && lastEnd != "error-blocked" {
